@@ -1679,20 +1679,39 @@ func (rc *RegClient) imageImportOCIHandleManifest(ctx context.Context, r ref.Ref
 	// add a finish func to push the manifest, this gets skipped for the index.json
 	if push {
 		trd.finish = append(trd.finish, func() error {
-			mRef := r.SetDigest(m.GetDescriptor().Digest.String())
-			_, err := rc.ManifestHead(ctx, mRef)
-			if err == nil {
-				return nil
-			}
-			opts := []ManifestOpts{}
-			if child {
-				opts = append(opts, WithManifestChild())
-			}
-			return rc.ManifestPut(ctx, mRef, m, opts...)
+			return rc.imageImportOCIPushManifest(ctx, r, m, trd, child)
 		})
 	}
 	trd.handleAdded = true
 	return nil
+}
+
+// imageImportOCIPushManifest pushes a manifest read from the tar, after any nested manifests it lists.
+// The finish steps run in the reverse order of the tar entries, which is not always children first.
+func (rc *RegClient) imageImportOCIPushManifest(ctx context.Context, r ref.Ref, m manifest.Manifest, trd *tarReadData, child bool) error {
+	mRef := r.SetDigest(m.GetDescriptor().Digest.String())
+	_, err := rc.ManifestHead(ctx, mRef)
+	if err == nil {
+		return nil
+	}
+	if mi, ok := m.(manifest.Indexer); ok && m.IsList() {
+		dl, err := mi.GetManifestList()
+		if err != nil {
+			return err
+		}
+		for _, d := range dl {
+			if mc, ok := trd.manifests[d.Digest]; ok && mc.GetDescriptor().Digest != m.GetDescriptor().Digest {
+				if err := rc.imageImportOCIPushManifest(ctx, r, mc, trd, true); err != nil {
+					return err
+				}
+			}
+		}
+	}
+	opts := []ManifestOpts{}
+	if child {
+		opts = append(opts, WithManifestChild())
+	}
+	return rc.ManifestPut(ctx, mRef, m, opts...)
 }
 
 // imageImportOCIPushManifests uploads manifests after OCI blobs were successfully loaded.
